@@ -456,6 +456,39 @@ def gen_cases(rng, n, tier):
     return cases[:n]
 
 
+def gen_pair_block(rng):
+    """two live networks of the same shape (same matrix, phases, tolerances) with different limits, queried
+    alternately with the same schedules and no construction in between: each answer must be the answer for
+    THAT network's limits (a limit matrix shared between instances would show here)"""
+    spec1 = rand_network_spec(rng)
+    if not spec1["rows"]:
+        spec1["rows"], spec1["limits"], spec1["partial"] = [[1.0] * len(spec1["phases"])], [40.0], [False]
+    f = rng.choice([2.0, 0.5, 1.5, 3.0])
+    spec2 = dict(spec1, limits=[x * f for x in spec1["limits"]])
+    nets = []
+    for sp in (spec1, spec2):
+        net = build_network(sp["rows"], sp["limits"], sp["phases"], sp["vt"], sp["rt"], sp["partial"])
+        nets.append((sp, net))
+    nets = [(sp, net, make_interface(net)) + read_back(net) for sp, net in nets]
+    cases = []
+    for _ in range(rng.choice([3, 5])):
+        T = rng.choice([1, 1, 2, 3])
+        ref = rng.choice(nets)
+        X = rand_schedule(rng, len(ref[5]), T)
+        X, colkinds = place(rng, ref[3] or [], ref[4], cis_of(ref[5]), ref[0]["vt"], ref[0]["rt"], X, T, rng.random() < 0.35)
+        mapping, mkind = make_mapping(rng, X, T)
+        order = list(nets) if rng.random() < 0.5 else list(reversed(nets))
+        prev = None
+        for sp, net, itf, A, L, ph in order:
+            impl = run_impl(net, itf, X, T, mapping)
+            cs = finish_cases(sp, A, L, ph, cis_of(ph), X, T, mapping, mkind + "/interleaved", colkinds, impl)
+            for c in cs:
+                c["input"]["before"] = prev
+            cases.extend(cs)
+            prev = dict(A=A, L=L, phases=ph, vt=sp["vt"], rt=sp["rt"])
+    return cases
+
+
 def gen_block(rng):
     cases = []
     if True:
@@ -463,6 +496,8 @@ def gen_block(rng):
             for _ in range(3):
                 cases.extend(gen_tie_cases(rng))
             return cases
+        if rng.random() < 0.2:
+            return gen_pair_block(rng)
         spec = rand_network_spec(rng)
         spec["ctor_default"] = (spec["vt"], spec["rt"]) == (1e-5, 1e-7) and rng.random() < 0.5
         if spec["ctor_default"]:
@@ -592,6 +627,11 @@ def search(rng, budget_s, broken):
 
 def rerun(inp):
     A, L, ph = inp["A"], inp["L"], inp["phases"]
+    other = None
+    if inp.get("before"):
+        # re-create the interleaving: the other network is built first and queried right before this one
+        b = inp["before"]
+        other = build_network(b["A"] or [], b["L"], b["phases"], b["vt"], b["rt"])
     if inp.get("ctor_default"):
         net = build_network(A or [], L, ph, None, None)
         # the tolerances are whatever the constructor of the tree under test chose
@@ -600,6 +640,13 @@ def rerun(inp):
         net = build_network(A or [], L, ph, inp["vt"], inp["rt"])
     itf = make_interface(net)
     mapping = [(int(i), r) for i, r in inp["mapping"]]
+    if other is not None:
+        import numpy as np
+        try:
+            other.is_feasible(np.zeros((len(ph), inp["T"])))
+            other.is_feasible(np.zeros((len(ph), inp["T"])), linear=True)
+        except Exception:  # noqa
+            pass
     return run_impl(net, itf, inp["X"], inp["T"], mapping, inp.get("ovt"), inp.get("ort"))
 
 
